@@ -51,6 +51,20 @@ D = {
  'C15-skip-actions-when-ignored': ('C15', 'the handler returns after chaining when the previous disposition was SIG_IGN', 'the signal was ignored when its first action was registered (nohup, background job): no flag is ever set'),
  'C17-nonpositive-code-is-user': ('C17', 'extract.c classifies every unknown si_code <= 0 as User', 'SI_TIMER / SI_ASYNCIO / SI_SIGIO deliveries: cause Sent(User) and union bytes read as a process'),
  'C17-zero-process-dropped': ('C17', 'the macOS "pid 0 uid 0 means no process" heuristic applied on every OS', 'a root sender outside the PID namespace (or a synthetic record) with pid 0 and uid 0'),
+ 'C16-reraise-to-process': ('C16', 'emulate_default_handler re-raises with kill(getpid()) instead of raise()', 'a multi-threaded process, the call on a non-main thread, a core-dumping signal: abort() wins the race, death by SIGABRT'),
+ 'C16-restore-default-skips-ignored': ('C16', 'restore_default returns early when the disposition is SIG_DFL or SIG_IGN', 'a terminating signal that is ignored at call time (SIGPIPE in any Rust binary, nohup): the re-raise is discarded, abort()'),
+ 'C01-first-look-before-swap': ('C01', 'the barrier\'s first look at the reader slots is hoisted above data.swap(new)', 'a delivery on another thread doing fetch_add + data.load between that look and the swap: old snapshot freed under it'),
+ 'C01-add-signal-lock-released': ('C01', 'Handle::add_signal does not hold its mutex across the registration', 'two concurrent add_signal(sig) on clones of one handle; the owner dropped afterwards: an orphaned action keeps running'),
+ 'C04-fallback-reset-after-unlock': ('C04', 'register clears race_fallback after releasing the data mutex', 'T1\'s delayed tail overwrites the fallback another first registration has just stored; a delivery in that window chains to nothing'),
+ 'C04-no-actions-early-return': ('C04', 'the handler returns before chaining when the slot has no actions', 'foreign handler first, register, unregister everything, deliver'),
+ 'C03-wake-blocking-send': ('C03', 'wake uses MSG_NOSIGNAL in place of MSG_DONTWAIT on Linux', 'a blocking socket write end and ~278 undrained deliveries: the handler sleeps in send'),
+ 'C03-shutdown-process-exit': ('C03', 'register_conditional_shutdown calls std::process::exit', 'the shutdown fires while an exit hook needs a lock held by the interrupted thread / another thread is exiting'),
+ 'C12-drop-skipped-while-unwinding': ('C12', 'DeliveryState::drop returns early if thread::panicking()', 'the last owner dropped during unwinding (Signals::new(&[USR1, KILL]) under catch_unwind)'),
+ 'C12-init-guard-removed': ('C12', 'FORBIDDEN asserted before init; the already-initialised early return of WithRawSiginfo::init removed', 'a number sigaction refuses (0, 32, 33, 65..127) added twice with WithRawSiginfo'),
+ 'C18-first-probe-after-flip': ('C18', 'write_barrier flips the generation before its first update_seen probe', 'a delivery entering the idle slot between the flip and the probe, then continuously overlapping deliveries: starvation'),
+ 'C18-reader-moves-slot': ('C18', 'HalfLock::read moves to the fresh slot after a generation change without undoing its first increment', 'a writer\'s flip between two loads of a delivery on another thread: a slot stays at +1, the next writer spins forever'),
+ 'C06-dequeue-head-once': ('C06', 'dequeue computes head and emptiness once before the CAS retry loop', 'two overlapping dequeues on one queue word (two producers / two consumers / send in send)'),
+ 'C06-recv-handback-first': ('C06', 'recv enqueues the slot to `empty` before take()', 'a completely full channel and a send between the hand-back and the take'),
  'C18-unregister-read-then-write': ('C18', 'unregister looks the id up under a read guard that is still held while write() blocks', 'two mutators: one holds the mutex before its barrier\'s first check, the other\'s unregister has incremented a reader slot and blocks on the mutex'),
 }
 for name, (prop, change, needs) in D.items():
